@@ -15,13 +15,19 @@ package dht
 // Oracle, all in VIRTUAL time (see vC03Judge):
 //
 //	op-hang            the operation is still running although no RPC / dial has been in flight
-//	                   and nothing concluded for 3 virtual minutes (or it is still busy after 30)
+//	                   and nothing concluded for 3 virtual minutes (or it is still busy after 30);
+//	                   signature op-hang@<operation>:<function it is blocked in>, except
+//	                   op-hang/optimistic-provide-no-rpc = DESIGN.md §6 #1 (waitForRPCs with no
+//	                   ADD_PROVIDER scheduled for the key). Terminal for the child process.
 //	return-bounded     if nothing is in flight when the operation returns, the last RPC / dial /
 //	                   consumer hand-over concluded at most 1 s earlier
 //	cancel-prompt      an operation that returns after its context ended returns <= t_c + 1 s
 //	chan-closed        result channels are closed (their close instant is the "return" above)
 //	quiet-after-return 2 virtual minutes after the return no RPC is in flight any more
 //	no-leak            ... and every instance-owned goroutine beyond the baseline census is gone
+//	                   (signature leak/searchvalue-quorum-abort: finding #22, value lookup left blocked
+//	                   on valCh after a quorum abort until the CALLER's context ends; otherwise
+//	                   no-leak@<innermost function of a survivor>)
 //	closed-empty       after Close no goroutine started by the module is left in the bubble
 //	panic              recovered in the operation's goroutine (others kill the child: driver reports)
 
@@ -490,15 +496,15 @@ var vC03Epoch = time.Date(2000, 1, 1, 0, 0, 0, 0, time.UTC) // synctest bubbles 
 
 // vC03Out is what one run observed (boundary instants feed the cancel enumeration).
 type vC03Out struct {
-	Runs       []*vC03OpRun
-	Boundaries []time.Duration // distinct offsets from the call of every wire / dial event up to the return
-	Rpcs       int
-	Dials      int
-	FailHit    int // contacted peers that failed / stayed silent / answered late
-	CancelHit  bool
+	Runs             []*vC03OpRun
+	Boundaries       []time.Duration // distinct offsets from the call of every wire / dial event up to the return
+	Rpcs             int
+	Dials            int
+	FailHit          int // contacted peers that failed / stayed silent / answered late
+	CancelHit        bool
 	InflightAtCancel int
-	Sig        string
-	WarmOK     bool
+	Sig              string
+	WarmOK           bool
 }
 
 // vC03RunOnce builds the network, runs the scenario's operation(s) under the cancel mode and
@@ -1130,7 +1136,7 @@ func vC03Describe(c *vh.Case, sc *vC03Sc, cm vC03Cancel) {
 
 func TestVerif_C03_ops(t *testing.T) {
 	vh.Run(t, vh.Spec{Prop: "C03", Unit: "ops", Quick: 1600, Thorough: 80000, CostMs: 18,
-		Rule: "PRNG case = simulated network (N 0-150; K in {1,2,3,5,8,20}, alpha in {1,2,3,10}, beta in {1,2,3,K}; knowledge full/kbucket/sparse; 0-90% (or all) peers failing by dial error, slow dial error, dials that take 2-9.5 s, request error, silence (10 s simulated read timeout), late answers (2-9.5 s), per-request flakiness, failing only the store RPC, answering once then silent; liars adding self / duplicates / strangers / 200 entries / themselves / mis-keyed records; value and provider records on some peers and locally; optional earlier lookups that filled the table; optional query/lookup event consumers; slow channel consumer) x one of GetClosestPeers, FindPeer, GetValue, SearchValue, FindProviders, FindProvidersAsync, PutValue, Provide(classic) x cancel mode {none, cancelled before the call, expired deadline, cancel at a log-uniform virtual instant 1 ms-60 s, ctx deadline 5 ms-61 s}; every 40th case is forced to a GetValue/SearchValue with Quorum 1-2, alpha 3 or 10, >= 25 peers all holding valid records, latencies 1-400 ms, un-cancelled context; oracle in virtual time over the simulated wire/dial log + goroutine census; non-trivial = >= 1 RPC and (a contacted peer failed / was silent / late, or the cancellation hit the operation); distinct by (operation, cancel mode, shape, RPC count, outcome and return instant)",
+		Rule:    "PRNG case = simulated network (N 0-150; K in {1,2,3,5,8,20}, alpha in {1,2,3,10}, beta in {1,2,3,K}; knowledge full/kbucket/sparse; 0-90% (or all) peers failing by dial error, slow dial error, dials that take 2-9.5 s, request error, silence (10 s simulated read timeout), late answers (2-9.5 s), per-request flakiness, failing only the store RPC, answering once then silent; liars adding self / duplicates / strangers / 200 entries / themselves / mis-keyed records; value and provider records on some peers and locally; optional earlier lookups that filled the table; optional query/lookup event consumers; slow channel consumer) x one of GetClosestPeers, FindPeer, GetValue, SearchValue, FindProviders, FindProvidersAsync, PutValue, Provide(classic) x cancel mode {none, cancelled before the call, expired deadline, cancel at a log-uniform virtual instant 1 ms-60 s, ctx deadline 5 ms-61 s}; every 40th case is forced to a GetValue/SearchValue with Quorum 1-2, alpha 3 or 10, >= 25 peers all holding valid records, latencies 1-400 ms, un-cancelled context; oracle in virtual time over the simulated wire/dial log + goroutine census; non-trivial = >= 1 RPC and (a contacted peer failed / was silent / late, or the cancellation hit the operation); distinct by (operation, cancel mode, shape, RPC count, outcome and return instant)",
 		Clauses: []string{"return-bounded", "cancel-prompt", "chan-closed", "chan-call-prompt", "quiet-after-return", "no-leak", "closed-empty"}},
 		func(c *vh.Case) {
 			sc := vC03GenSc(c.R, 150)
@@ -1163,7 +1169,7 @@ func TestVerif_C03_ops(t *testing.T) {
 
 func TestVerif_C03_cancelenum(t *testing.T) {
 	vh.Run(t, vh.Spec{Prop: "C03", Unit: "cancelenum", Quick: 160, Thorough: 4000, CostMs: 130,
-		Rule: "small PRNG scenarios (N 3-40, otherwise as unit ops, one operation each); the scenario is first run un-cancelled recording the distinct virtual instants of all wire/dial log entries up to the return (boundary events, incl. the call and the return themselves), then re-run from the same seed with cancel() at (boundary instant, offset in {-1 ns, 0, +1 ns}): quick 8 PRNG-chosen pairs per case, thorough all pairs (at most 300); same oracle as ops on every run; non-trivial = >= 3 distinct boundaries and at least one cancellation hit the operation with an RPC in flight; distinct by (operation, shape, number of boundaries, outcomes)",
+		Rule:    "small PRNG scenarios (N 3-40, otherwise as unit ops, one operation each); the scenario is first run un-cancelled recording the distinct virtual instants of all wire/dial log entries up to the return (boundary events, incl. the call and the return themselves), then re-run from the same seed with cancel() at (boundary instant, offset in {-1 ns, 0, +1 ns}): quick 8 PRNG-chosen pairs per case, thorough all pairs (at most 300); same oracle as ops on every run; non-trivial = >= 3 distinct boundaries and at least one cancellation hit the operation with an RPC in flight; distinct by (operation, shape, number of boundaries, outcomes)",
 		Clauses: []string{"return-bounded", "cancel-prompt", "chan-closed", "quiet-after-return", "no-leak", "closed-empty"}},
 		func(c *vh.Case) {
 			sc := vC03GenSc(c.R, 40)
@@ -1229,7 +1235,7 @@ func TestVerif_C03_cancelenum(t *testing.T) {
 
 func TestVerif_C03_optprov(t *testing.T) {
 	vh.Run(t, vh.Spec{Prop: "C03", Unit: "optprov", Quick: 128, Thorough: 6000, CostMs: 30,
-		Rule: "Provide with EnableOptimisticProvide on PRNG networks (N 1-150, K in {1,2,3,5,8,20}, jobs pool 0/1/3/default) whose network-size estimator was warmed up by >= 5 completed GetClosestPeers (or, when N < K, by 6 synthetic Track calls claiming a network of K..2000 peers); afterwards the peers start failing as in unit ops; 1-3 concurrent provides; cancel modes as ops plus cancel at a boundary instant of the un-cancelled run; forced classes by case index modulo 32: all peers fail (1 of 32), K <= 2 (2), context cancelled / expired before the call while every peer takes 2-9.5 s to accept an ADD_PROVIDER (4); non-trivial = estimator ready and >= 1 ADD_PROVIDER message or a failing peer contacted; distinct by (shape, cancel mode, RPC count, outcomes)",
+		Rule:    "Provide with EnableOptimisticProvide on PRNG networks (N 1-150, K in {1,2,3,5,8,20}, jobs pool 0/1/3/default) whose network-size estimator was warmed up by >= 5 completed GetClosestPeers (or, when N < K, by 6 synthetic Track calls claiming a network of K..2000 peers); afterwards the peers start failing as in unit ops; 1-3 concurrent provides; cancel modes as ops plus cancel at a boundary instant of the un-cancelled run; forced classes by case index modulo 32: all peers fail (1 of 32), K <= 2 (2), context cancelled / expired before the call while every peer takes 2-9.5 s to accept an ADD_PROVIDER (4); non-trivial = estimator ready (optimistic path taken) and >= 1 RPC issued; distinct by (shape, cancel mode, RPC count, outcomes)",
 		Clauses: []string{"return-bounded", "cancel-prompt", "quiet-after-return", "no-leak", "closed-empty"}},
 		func(c *vh.Case) {
 			r := c.R
